@@ -266,9 +266,12 @@ class ExpandingWindow(Contract):
         for _ in range(60 if tier == "thorough" else 20):
             coords = _rand_coords(rng, nrng, rng.choice([1, 2]), rng.choice([0, 1]), scale=5.0)
             center = (rng.uniform(-3, 3), rng.uniform(-3, 3))
-            sizes = sorted(rng.uniform(0, 12) for _ in range(rng.randint(1, 4)))
-            if rng.random() < 0.5:
+            sizes = sorted(rng.uniform(0, 12) for _ in range(rng.randint(1, 5)))
+            r = rng.random()
+            if r < 0.25:
                 sizes = sizes[::-1]
+            elif r < 0.85:
+                rng.shuffle(sizes)  # "follows the order of the given sizes": any order, not only sorted ones
             coords[0].flat[0] = center[0] + sizes[0] / 2  # on the edge of the first window
             yield (coords, center, sizes), {}
 
